@@ -7,6 +7,13 @@
 From Kit Require Export Lib.Base.
 From Coq Require Import Ascii String.
 
+(* [rev] of the standard library is quadratic; header lines can be 64 KiB long.  [frev] is the
+   linear one, equal to it ([frev_rev]). *)
+Definition frev {A} (l : list A) : list A := rev_append l [].
+
+Lemma frev_rev {A} (l : list A) : frev l = rev l.
+Proof. unfold frev. rewrite rev_append_rev. apply app_nil_r. Qed.
+
 (* ASCII text as a byte string. *)
 Fixpoint str (s : string) : list N :=
   match s with
@@ -149,7 +156,7 @@ Fixpoint json_unquote (bs : list N) (acc : list N) : option (list N * list N) :=
   match bs with
   | [] => None
   | b :: t =>
-      if (b =? 34)%N then Some (rev acc, t)
+      if (b =? 34)%N then Some (frev acc, t)
       else if (b <? 32)%N then None
       else if (b =? 92)%N then
         match t with
